@@ -613,10 +613,16 @@ def extract_selector(errors):
         L.append(f"def boolOpCoercesToBool : Bool := {lbool('value = bool(value)' in bo)}")
         L.append(f"def boolOpShortCircuits : Bool := {lbool('return value' in bo)}")
         call = "\n".join(src(s) for s in bodies.get("Call", []))
-        L.append(f"def callChecksBeforeEval : Bool := "
-                 + lbool("InvalidOperation" in call and "self.eval(node.func)" in call
-                         and call.index("resolve_attr_path") < call.index("self.eval(node.func)")))
+        L.append("def callTargetFromStaticTables : Bool := "
+                 + lbool("self.allowed_calls[func_name]" in call and "self.eval(node.func)" not in call
+                         and "self.data" not in call))
+        L.append("def callRefusalPrecedesArgs : Bool := "
+                 + lbool("raise InvalidOperation" in call and "node.args" in call
+                         and call.rindex("raise InvalidOperation") < call.index("node.args")))
         L.append(f"def callWhitelistConsultsLiveNamespace : Bool := {lbool('self.data.get(func_name)' in call)}")
+        mt = src(find_def(tree, "matches", cls="RecordContextMatcher"))
+        L.append("def allowedCallsFixedAtNamespaceConstruction : Bool := "
+                 + lbool("self.allowed_calls = {k: v for k, v in self.data.items() if callable(v)}" in mt))
         rap = src(find_def(tree, "resolve_attr_path"))
         L.append("def callTargetMustResolveToName : Bool := "
                  + lbool("else:" in rap or "raise" in rap or "return None" in rap))
@@ -717,11 +723,12 @@ def extract_adapters(errors):
         t = parse("flow/record/fieldtypes/__init__.py")
         for cname in ["uint16", "uint32", "boolean"]:
             init = src(find_def(t, "__init__", cls=cname))
-            m = re.search(r"if value < (\w+) or value > (\w+):", init)
+            m = re.search(r"if value < (\w+) or value > (\w+)( or value != int\(value\))?:", init)
             if not m:
                 raise ExtractError(f"{cname}.__init__: range test not recognised")
             L.append(f"def {cname}Min : Int := {int(m.group(1), 0)}")
             L.append(f"def {cname}Max : Int := {int(m.group(2), 0)}")
+            L.append(f"def {cname}RejectsFractions : Bool := {lbool(bool(m.group(3)))}")
         for n in ["TYPE_POSIX", "TYPE_WINDOWS"]:
             L.append(f"def {n} : Nat := {const_eval(module_assign(t, n), {})}")
         users = []
